@@ -37,7 +37,7 @@ class Contract:
     """
 
     def __init__(self, target, params, result=None, requires=None, ensures=None, raises=(), modifies=(), loops=None,
-                 spec_fns=None, inline=False, inline_callees=(), props=(), note="", trusted=False, witness=None, exposes=None, defines=None, ghost=None, locals=None, let_abstraction=True, adapt=None, instance=None, axioms=None, ghost_locals=None, raises_when=None, opaque_nonlinear=False):
+                 spec_fns=None, inline=False, inline_callees=(), props=(), note="", trusted=False, witness=None, exposes=None, defines=None, ghost=None, locals=None, let_abstraction=True, adapt=None, instance=None, axioms=None, ghost_locals=None, raises_when=None, opaque_nonlinear=False, deep_wf=False):
         self.target = target
         self.module, self.qual = target.split(":")
         self.params = dict(params)
@@ -63,14 +63,24 @@ class Contract:
         self.opaque_nonlinear = opaque_nonlinear      # products / quotients of two symbolic reals become uninterpreted (rmul / rdiv): the proof may only use congruence and the axioms the contract states
         self.raises_when = dict(raises_when or {})    # {ExcName: spec over the LOCALS at the raise}: the exception may only escape from a state satisfying the spec (no completeness claim)
         self.ghost_locals = dict(ghost_locals or {})   # {name: type}: ghost variables of the body (arbitrary initial value; written by ghost hooks only)
+        self.deep_wf = deep_wf     # fresh values carry their well-formedness facts (list lengths >= 0) at every nesting depth, not only at the top
         self.instance = instance   # distinguishes several contracts of one function (separate ledger entries)
         self.adapt = adapt     # replay only: concretised arguments (plain data) -> arguments of the real call (e.g. a record to the real class)
         self.exposes = dict(exposes or {})   # callee locals named in `ensures`: existentially quantified (fresh) at call sites
 
 
 class Registry(dict):
+    """target -> contract.  Several contracts of one function that differ in a constant parameter (TConst) are kept as variants:
+    a call site uses the one whose constants equal the actual arguments"""
+
+    def __init__(self, *a, **k):
+        super().__init__(*a, **k)
+        self.variants = {}
+
     def add(self, c):
-        self[c.target] = c
+        self.variants.setdefault(c.target, []).append(c)
+        if c.target not in self:
+            self[c.target] = c
         return c
 
 
